@@ -89,6 +89,46 @@ class Effects:
         def with_field(roots: Set[Root], field: str) -> Set[Root]:
             return {(p, fld if fld else field) for p, fld in roots}
 
+        def fresh_container(x: ast.AST) -> bool:
+            if isinstance(x, (ast.List, ast.Set, ast.Dict, ast.ListComp, ast.SetComp, ast.DictComp)):
+                return True
+            return isinstance(x, ast.Call) and isinstance(x.func, ast.Name) and x.func.id in ("list", "set", "dict", "sorted")
+
+        # local names bound (only) to displays / comprehensions whose values are all containers created on the spot,
+        # and never given an aliased container through a subscript store
+        nested_fresh: Set[str] = set()
+        spoiled: Set[str] = set()
+        for n_ in ast.walk(f.node):
+            tgt = val = None
+            if isinstance(n_, ast.Assign) and len(n_.targets) == 1:
+                tgt, val = n_.targets[0], n_.value
+            elif isinstance(n_, ast.AnnAssign) and n_.value is not None:
+                tgt, val = n_.target, n_.value
+            if isinstance(tgt, ast.Name):
+                vals = None
+                if isinstance(val, ast.Dict):
+                    vals = list(val.values)
+                elif isinstance(val, (ast.List, ast.Tuple)):
+                    vals = list(val.elts)
+                elif isinstance(val, ast.DictComp):
+                    vals = [val.value]
+                elif isinstance(val, ast.ListComp):
+                    vals = [val.elt]
+                if vals and all(v is not None and fresh_container(v) for v in vals):
+                    nested_fresh.add(tgt.id)
+                else:
+                    spoiled.add(tgt.id)
+            if isinstance(tgt, ast.Subscript) and isinstance(tgt.value, ast.Name) and not fresh_container(val):
+                spoiled.add(tgt.value.id)
+        for n_ in ast.walk(f.node):
+            # the nested container escapes as an argument: the callee could store anything into it
+            if isinstance(n_, ast.Call):
+                for a_ in list(n_.args) + [k.value for k in n_.keywords]:
+                    if isinstance(a_, ast.Name):
+                        spoiled.add(a_.id)
+        nested_fresh -= spoiled
+        nested_fresh -= set(params)
+
         def roots(e: ast.AST) -> Tuple[Set[Root], Set[Root]]:
             """(self_roots, inner_roots)"""
             if isinstance(e, ast.Name):
@@ -117,6 +157,10 @@ class Effects:
                 return r, set(r)
             if isinstance(e, ast.Subscript):
                 bs, bi = roots(e.value)
+                if isinstance(e.value, ast.Name) and e.value.id in nested_fresh and not isinstance(e.slice, ast.Slice):
+                    # a container whose values are containers created here (groups = {-1: [], 0: [pivot], 1: []}):
+                    # what the subscript yields is one of those fresh containers; only its *elements* may alias inputs
+                    return set(), set(bi)
                 if isinstance(e.slice, ast.Slice):
                     return set(), set(bi)        # a slice of a list is a shallow copy (numpy views: see sinks)
                 return set(bi), set(bi)
